@@ -102,6 +102,11 @@ pub fn run_sa_check(id: &str, tier: &str, seed: u64) -> i32 {
     let clean_evals = acc.evals;
     let faulty = report::par_acc(n - n / 3, |r| sa_checks::run_one(seed, r, &format!("{}-faulty", id), j, true));
     acc.merge(faulty);
+    if id == "C03" || id == "C08" {
+        // marathon sessions: one position, hundreds of consecutive go commands
+        let nm = if tier == "quick" { 6 } else { 120 };
+        acc.merge(report::par_acc(nm, |r| sa_checks::run_marathon(seed, r, &format!("{}-marathon", id), j)));
+    }
     if id == "C09" {
         let cfgacc = crate::c09::sweep(seed, tier);
         acc.merge(cfgacc);
@@ -278,6 +283,9 @@ pub fn run_c10(tier: &str, seed: u64) -> i32 {
     // (i) again, through the real command loop: several position commands in one session
     let n3: u64 = if quick { 8_000 } else { 250_000 };
     acc.merge(report::par_acc(n3, |r| sa_checks::run_c10_session(seed, r)));
+    // (ii) again, through the real command loop, behind earlier timed searches
+    let n4: u64 = if quick { 1_500 } else { 40_000 };
+    acc.merge(report::par_acc(n4, |r| sa_checks::run_c10_draw_session(seed, r)));
     let z = ZobristHasher::create_zobrist_hasher();
     minimise_all(&mut acc, |v| if v.scenario["family"] == "SC" { sc::minimise(v, &z) } else { v.clone() });
     let meta = CheckMeta {
